@@ -556,9 +556,10 @@ func init() {
 			pre + settings + strings.Repeat(frame(6, 0, 0, make([]byte, 8)), 300) + frame(8, 0, 0, []byte{0, 0, 0, 0}) + frame(3, 0, 0, []byte{0, 0, 0, 1}),
 			pre + settings + frame(0x42, 0xff, 7, lib.GenBlob(rng, 200, "random", "fr")) + frame(4, 0, 0, []byte{0, 4, 0xff, 0xff, 0xff, 0xff}),
 		})
+		pause := time.Duration(10+rng.IntN(40)) * time.Millisecond
 		return []*op{{ep: "grpc:RAW", noRetry: true, desc: map[string]any{"bytes": describeBytes([]byte(script))},
 			run: func(ctx context.Context, fx *fixture) result {
-				res := rawRun(ctx, fx.child.GRPCAddr, 0, []rawStep{{w: []byte(script), sleep: time.Duration(10+rng.IntN(40)) * time.Millisecond, read: 4096}})
+				res := rawRun(ctx, fx.child.GRPCAddr, 0, []rawStep{{w: []byte(script), sleep: pause, read: 4096}})
 				res.success = false
 				return res
 			}}}
